@@ -42,7 +42,7 @@ def cases(ctx):
         if not thorough or ctx.mine(i):
             yield {'kind': 'pair', 'D1': d1, 'D2': d2}
     for i in range(400 if not thorough else 4000):
-        d = gen.random_dfa(rng, 6)
+        d = gen.chain_dfa(rng) if i % 8 == 5 else gen.random_dfa(rng, 6)
         pd = gen.random_dfa(rng, 5, total=False)
         if not thorough or ctx.mine(i):
             yield {'kind': 'single', 'D': d, 'P': pd}
